@@ -26,6 +26,10 @@ MC_Cfg_seal_noopen == [seal |-> TRUE, no_open |-> TRUE, ifh |-> FALSE, wb |-> FA
 \* the same configurations and trees in the harness' scenario format
 Scen(c) == [no_open |-> c.no_open, no_opendir |-> FALSE, ifh |-> c.ifh, host_ino |-> FALSE, wb |-> c.wb, cache |-> IF c.no_open THEN "always" ELSE "auto",
             xattr |-> TRUE, seal |-> c.seal, via |-> "direct"]
+MC_Cfg_seal_noopen_wb == [seal |-> TRUE, no_open |-> TRUE, ifh |-> FALSE, wb |-> TRUE]
+MC_Scen_seal_noopen_wb == Scen(MC_Cfg_seal_noopen_wb)
+MC_AF_c05g == {"seeded:root-keeps-group"}
+MC_AF_c18w == {"seeded:wb-append"}
 MC_Scen_plain == Scen(MC_Cfg_plain)
 MC_Scen_ifh == Scen(MC_Cfg_ifh)
 MC_Scen_noopen == Scen(MC_Cfg_noopen)
